@@ -203,6 +203,162 @@ fn check_decl(styles: &Styles, c: &DeclCase, st: &mut Stats) -> Result<(), Failu
     Ok(())
 }
 
+// ---- live: the declared body limit is the one the server applies -----------------
+
+const SERVER_DEFAULT_MAX: usize = 1024;
+
+struct LiveStyle {
+    name: &'static str,
+    addr: std::net::SocketAddr,
+    server: dropshot::HttpServer<prelude::GenCtx>,
+}
+
+fn start_live(name: &'static str, api: ApiDescription<prelude::GenCtx>, rt: &tokio::runtime::Runtime) -> LiveStyle {
+    let _g = rt.enter();
+    let policy = dropshot::VersionPolicy::Dynamic(Box::new(dropshot::ClientSpecifiesVersionInHeader::new(
+        http::HeaderName::from_static("x-verif-version"),
+        ver("9.9.9"),
+    )));
+    let cfg = dropshot::ConfigDropshot { default_request_body_max_bytes: SERVER_DEFAULT_MAX, ..Default::default() };
+    let server = vlib::dynapi::start_server(api, prelude::GenCtx::default(), cfg, Some(policy)).expect("generated server");
+    LiveStyle { name, addr: server.local_addr(), server }
+}
+
+/// a body the endpoint accepts, and how to make it exactly `n` bytes long
+fn body_of_len(kind: &BodyKind, n: usize) -> Option<Vec<u8>> {
+    let base: Vec<u8> = match kind {
+        BodyKind::None | BodyKind::Streaming | BodyKind::Multipart => return None,
+        BodyKind::Json(0) => br#"{"name":"n","count":1}"#.to_vec(),
+        BodyKind::Json(1) => br#"{"items":[],"mode":"fast"}"#.to_vec(),
+        BodyKind::Json(2) => br#"{"kind":"Leaf","value":0}"#.to_vec(),
+        BodyKind::Json(_) => br#"{"map":{},"id":"x"}"#.to_vec(),
+        BodyKind::Form(0) => b"a=x&b=1".to_vec(),
+        BodyKind::Form(_) => b"flag=true&mode=fast".to_vec(),
+        BodyKind::Untyped => vec![],
+    };
+    if base.len() > n {
+        return None;
+    }
+    let mut b = base;
+    match kind {
+        BodyKind::Json(_) => b.resize(n, b' '),
+        BodyKind::Form(_) => {
+            // pad with an unknown field (at least "&p=" long)
+            let room = n - b.len();
+            if room == 0 {
+            } else if room < 3 {
+                return None;
+            } else {
+                b.extend_from_slice(b"&p=");
+                b.resize(n, b'x');
+            }
+        }
+        _ => b.resize(n, b'u'),
+    }
+    Some(b)
+}
+
+fn check_live_decl(lives: &[LiveStyle], rt: &tokio::runtime::Runtime, c: &DeclCase, st: &mut Stats) -> Result<(), Failure> {
+    use std::time::Duration;
+    let d = &c.decl;
+    if d.channel {
+        return Ok(());
+    }
+    let Some(v) = POOL.iter().find(|v| member(d, v)) else {
+        st.count("no_pool_version_in_range");
+        return Ok(());
+    };
+    let limit = d.max_bytes.map(|(n, _)| n as usize).unwrap_or(SERVER_DEFAULT_MAX);
+    let query = match d.query {
+        Some(0) => "?a=x",
+        Some(1) => "?n=1",
+        _ => "",
+    };
+    let target = format!("{}{}{}", instantiate(d), if d.trailing_slash { "/" } else { "" }, query);
+    let what = format!("declaration #{} ({} {}, body {:?}, declared request_body_max_bytes {:?}, server default {})", d.id, d.method, d.path_template(), d.body, d.max_bytes, SERVER_DEFAULT_MAX);
+    let mk = |body: Option<&[u8]>| {
+        let mut headers = vec![("x-verif-version".to_string(), v.to_string())];
+        match d.body {
+            BodyKind::None => {}
+            BodyKind::Multipart => headers.push(("content-type".into(), "multipart/form-data; boundary=b".into())),
+            _ => headers.push(("content-type".into(), d.content_type().to_string())),
+        }
+        vlib::http1::build_request(&d.method, &target, &headers, body)
+    };
+    let head = d.method == "HEAD";
+    for live in lives {
+        let ctx = live.server.app_private();
+        // 1. a plain valid request: the handler runs and sees the declared (or default) limit
+        let small: Option<Vec<u8>> = match d.body {
+            BodyKind::None => None,
+            BodyKind::Streaming => Some(b"xyz".to_vec()),
+            BodyKind::Multipart => Some(b"--b--\r\n".to_vec()),
+            _ => body_of_len(&d.body, 0).or_else(|| (1..64).find_map(|n| body_of_len(&d.body, n).filter(|b| b.len() == n && (n == 0 || !b.ends_with(b" "))))),
+        };
+        let fits = small.as_ref().map(|b| b.len() <= limit).unwrap_or(true);
+        st.eval();
+        if fits {
+            ctx.limits.lock().unwrap().remove(&d.op_id());
+            let r = rt
+                .block_on(vlib::http1::oneshot(live.addr, &mk(small.as_deref()), head, Duration::from_secs(10)))
+                .map_err(|e| Failure::new("live-no-response", format!("{} [{}]: {}", what, live.name, e)))?;
+            ensure!(r.status < 400, "live-valid-request-refused", "{} [{}] @{}: {} {} answered {} {}", what, live.name, v, d.method, target, r.status, truncate(&r.body_text(), 200));
+            let seen = ctx.limits.lock().unwrap().get(&d.op_id()).copied();
+            ensure!(
+                seen == Some(limit),
+                "effective-body-limit",
+                "{} [{}] @{}: the handler's request_body_max_bytes() is {:?}, declared/default limit is {}",
+                what,
+                live.name,
+                v,
+                seen,
+                limit
+            );
+            st.count("limit_seen_by_handler");
+        }
+        // 2. buffered bodies: exactly the limit is accepted, one byte more is refused before the handler runs
+        if matches!(d.body, BodyKind::Json(_) | BodyKind::Form(_) | BodyKind::Untyped) {
+            if let Some(b) = body_of_len(&d.body, limit) {
+                st.eval();
+                let r = rt
+                    .block_on(vlib::http1::oneshot(live.addr, &mk(Some(&b)), head, Duration::from_secs(10)))
+                    .map_err(|e| Failure::new("live-no-response", format!("{} [{}]: {}", what, live.name, e)))?;
+                ensure!(r.status < 400, "body-at-limit-refused", "{} [{}] @{}: a body of exactly {} bytes answered {} {}", what, live.name, v, limit, r.status, truncate(&r.body_text(), 200));
+            }
+            if let Some(b) = body_of_len(&d.body, limit + 1) {
+                st.eval();
+                let before = ctx.entered.load(Ordering::SeqCst);
+                let r = rt
+                    .block_on(vlib::http1::oneshot(live.addr, &mk(Some(&b)), head, Duration::from_secs(10)))
+                    .map_err(|e| Failure::new("live-no-response", format!("{} [{}]: {}", what, live.name, e)))?;
+                let after = ctx.entered.load(Ordering::SeqCst);
+                ensure!(
+                    (400..500).contains(&r.status) && after == before,
+                    "body-over-limit-accepted",
+                    "{} [{}] @{}: a body of {} bytes (limit {}) answered {} and the handler ran {} time(s)",
+                    what,
+                    live.name,
+                    v,
+                    limit + 1,
+                    limit,
+                    r.status,
+                    after - before
+                );
+                st.count("over_limit_refused");
+                if d.max_bytes.is_some() {
+                    st.nontrivial(hash_of(&format!("live{:?}", d)));
+                }
+            }
+        }
+    }
+    if d.max_bytes.map(|(n, _)| (n as usize) < SERVER_DEFAULT_MAX).unwrap_or(false) {
+        st.count("declared_limit_below_default");
+    }
+    st.count("live_endpoints");
+    st.sample(|| json!({"declaration": what, "request": format!("{} {} @{}", d.method, target, v)}));
+    Ok(())
+}
+
 #[derive(Clone, Debug, Serialize, Deserialize)]
 struct StyleCase {
     seed: u64,
@@ -245,7 +401,7 @@ fn check_styles(styles: &Styles, c: &StyleCase, st: &mut Stats) -> Result<(), Fa
 
 fn run_c19(ctx: &mut Ctx) {
     let m = manifest();
-    ctx.rule = format!("{} generated endpoint/channel declarations (seed {}) over method, path shapes (literals, typed variables, trailing wildcard), tags, all five version-range syntaxes with string literals and const paths, operation_id, content_type, request_body_max_bytes (literal and const), deprecated, unpublished, extractor lists in both orders, all response kinds, custom error types and four doc-comment shapes; each rendered as a free function, as an API-trait method with an implementation and present in the trait's stub. Oracle: generator-side record == routing metadata at 8 probe versions in all three styles == OpenAPI operation (id, tags, deprecated, content type, websocket extension, doc text with whitespace removed); the three styles yield byte-identical documents at every version. non-trivial = declaration using >= 3 optional attributes; distinct by declaration", m.n, m.seed);
+    ctx.rule = format!("{} generated endpoint/channel declarations (seed {}) over method, path shapes (literals, typed variables, trailing wildcard), tags, all five version-range syntaxes with string literals and const paths, operation_id, content_type, request_body_max_bytes (literal and const), deprecated, unpublished, extractor lists in both orders, all response kinds, custom error types and four doc-comment shapes; each rendered as a free function, as an API-trait method with an implementation and present in the trait's stub. Oracle: generator-side record == routing metadata at 8 probe versions in all three styles == OpenAPI operation (id, tags, deprecated, content type, websocket extension, doc text with whitespace removed); the three styles yield byte-identical documents at every version. Phase served_live sends each endpoint (function and trait+impl style, header version policy) a valid request and compares the handler's request_body_max_bytes() with the declared limit (else the server default of 1024), then a buffered body of exactly the limit (accepted) and one byte more (4xx, handler not entered). non-trivial = declaration using >= 3 optional attributes; distinct by declaration", m.n, m.seed);
     ctx.assume("compile-time rejection of bad declarations is out of scope; the grammar of generated declarations is finite");
     let styles = prepare();
     let cases: Vec<DeclCase> = m.decls.iter().map(|d| DeclCase { seed: m.seed, n: m.n, decl: d.clone() }).collect();
@@ -257,6 +413,20 @@ fn run_c19(ctx: &mut Ctx) {
             _ => Err(Failure::new("replay-program-mismatch", "the compiled program does not contain this declaration (regenerate with the seed/n in the replay file)")),
         }
     });
+    {
+        let rt = tokio::runtime::Builder::new_multi_thread().worker_threads(2).enable_all().build().unwrap();
+        let lives = vec![start_live("functions", generated::fn_style::api(), &rt), start_live("trait+impl", generated::trait_style::api(), &rt)];
+        let cases: Vec<DeclCase> = m.decls.iter().map(|d| DeclCase { seed: m.seed, n: m.n, decl: d.clone() }).collect();
+        ctx.enumerate("served_live", cases, false, |c, st| match m.decls.iter().find(|d| d.id == c.decl.id) {
+            Some(d) if d == &c.decl => check_live_decl(&lives, &rt, c, st),
+            _ => Err(Failure::new("replay-program-mismatch", "the compiled program does not contain this declaration (regenerate with the seed/n in the replay file)")),
+        });
+        ctx.require_frac("served_live", "limit_seen_by_handler", "live_endpoints", 0.5);
+        ctx.require_frac("served_live", "declared_limit_below_default", "live_endpoints", 0.08);
+        for l in lives {
+            let _ = rt.block_on(l.server.close());
+        }
+    }
     let cases: Vec<StyleCase> = POOL.iter().map(|v| StyleCase { seed: m.seed, n: m.n, version: v.to_string() }).collect();
     ctx.enumerate("styles_identical", cases, false, |c, st| check_styles(&styles, c, st));
     ctx.require_frac("declarations", "channels", "endpoints", 0.02);
